@@ -98,6 +98,86 @@ def run_on(backend, hist):
         rig.close()
 
 
+TIMEOUT_SYMS = ["MKD n", "DELE b", "RMD c", "T:STOR b", "T:STOR new", "T:APPE b", "RNFR b|RNTO moved", "MKD a/s/t/deep"]
+
+
+def run_timeout(sym, chooser):
+    """executor backend with Server(path_timeout=...): a call that times out while its job is still queued in the pool
+    is withdrawn - a command answered 451 has changed nothing, also not a little later"""
+    conf = Conf(USERS, TREE, backend="async", payload=PAYLOAD, server_kwargs={"path_timeout": 0.05})
+    rig = conf.new_rig(chooser=chooser)
+    try:
+        rig.world.net.exec_cancellable = True
+        chooser.active = False
+        rig.ev(0, "@connect")
+        for line in PREFIX:
+            rig.ev(0, line)
+        s = rig.sessions[0]
+        before = rig.snapshot()
+        codes = []
+        chooser.active = True
+        for part_ in sym.split("|"):
+            transfer = part_.startswith("T:")
+            line = part_[2:] if transfer else part_
+            if transfer:
+                rig.ev(0, "@data")
+            r = rig.ev(0, line) or []
+            cs = [c for c, _ in r]
+            if transfer and cs and cs[-1][:1] == "1" and s.data is not None:
+                rig.ev(0, "@dsend " + PAYLOAD.decode())
+                r2 = rig.ev(0, "@dclose") or []
+                rig.collect()
+                cs += [c for c, _ in r2]
+            codes.append(cs)
+        chooser.active = False
+        rig.world.settle(2)
+        rig.collect()
+        late = [c for ev_, rr in s.transcript if ev_ == "<late>" for c, _ in rr]
+        if late and codes:
+            codes[-1] = codes[-1] + late
+        after = rig.snapshot()
+        problems = []
+        # a transfer that was started (150) and then failed may have written already; everything else that is answered
+        # with a failure has changed nothing
+        failed = [cs for cs in codes if not (cs and cs[-1].startswith(("2", "3"))) and not any(c.startswith("1") for c in cs)]
+        if failed and len(failed) == len(codes) and after != before:
+            problems.append({"kind": "failed-command-changed-tree", "backend": "async", "step": sym, "codes": codes,
+                             "before": repr(before)[:200], "after": repr(after)[:200]})
+        if s.closed():
+            problems.append({"kind": "session-ended", "step": sym, "codes": codes})
+        return {"problems": problems, "events": rig.world.net.n_events, "trace": report.fp(rig.world.net.trace),
+                "outcome": report.fp([codes, after == before])}
+    finally:
+        rig.close()
+
+
+def timeout_work(item):
+    from vf.explore import explore
+    from vf.simloop import ReplayDivergence
+    sym, bound = item
+    part = report.Partial()
+    kinds = ["timer", "order"]
+    try:
+        for ch, res in explore(lambda c: run_timeout(sym, c), bound, kinds=kinds, max_exec=3000):
+            if ch is None:
+                part.caps.append({"timeout-sym": sym, "cap": 3000})
+                break
+            part.evaluations += 1
+            part.traces += 1
+            part.transitions += res["events"]
+            part.states.add(res["trace"])
+            part.nontrivial.add(res["trace"])
+            part.outcomes[res["outcome"]] += 1
+            part.counters[f"path_timeout_exec_dev{ch.deviations}"] += 1
+            for p in res["problems"][:1]:
+                part.violation({"kind": p["kind"], "verb": sym.replace("T:", "").partition(" ")[0], "field": "path_timeout",
+                                "backend": "async"}, {"problem": p},
+                               replay={"timeout": sym, "choices": ch.choices, "kinds": kinds})
+    except ReplayDivergence as exc:
+        part.infra.append(f"replay divergence in timeout case {sym}: {exc}")
+    return part
+
+
 def expand(hist):
     part = report.Partial()
     obs = {b: run_on(b, hist) for b in BACKENDS}
@@ -301,8 +381,11 @@ def run(tier, seed, t0):
         parts = [bfs(2, 30000), api_bfs(2, 20000)]
     else:
         parts = [bfs(4, 300000), api_bfs(3, 200000)]
+    parts += report.pmap(timeout_work, [(sym, 1 if tier == "quick" else 3) for sym in TIMEOUT_SYMS])
     part = report.merge_all(parts)
-    bounds = {"ftp_alphabet": len(ALPHABET), "ftp_depth": 2 if tier == "quick" else 4, "api_ops": len(API_OPS),
+    bounds = {"path_timeout": "executor backend, path_timeout 0.05 s, jobs withdrawn when cancelled while queued; %d mutating "
+                              "commands under <= %d timer/order deviations" % (len(TIMEOUT_SYMS), 1 if tier == "quick" else 3),
+              "ftp_alphabet": len(ALPHABET), "ftp_depth": 2 if tier == "quick" else 4, "api_ops": len(API_OPS),
               "api_depth": 2 if tier == "quick" else 3, "universe": UNIVERSE, "backends": BACKENDS}
     return report.finish(
         PID, tier, seed, "model_checking", part, t0,
@@ -317,6 +400,12 @@ def run(tier, seed, t0):
 
 def replay(path):
     data = json.loads(open(path).read())
+    if "timeout" in data.get("replay", {}):
+        from vf.simloop import Chooser
+        rp = data["replay"]
+        res = run_timeout(rp["timeout"], Chooser(rp["choices"], rp["kinds"]))
+        print(json.dumps(res["problems"], indent=1, default=repr))
+        return 1 if res["problems"] else 0
     rp = data["replay"]
     if "api" in rp:
         part, key, bad = api_expand([tuple(o) for o in rp["api"]])
